@@ -88,7 +88,8 @@ CLAIMED["C18"] = {
 CLAIMED["C07"] = {
     "text": "Model of the IVOA ASCII codec (lexer, validation loop, sort + overlap check, per-depth buckets of the writer) and of the FITS range payload. Theorems: reading what the writer emits returns "
             "the declared depth and the canonical MOC covering exactly the elements, for EVERY list of in-domain non-overlapping elements in any order, every dmax (empty MOC and unoccupied deepest "
-            "level included), every quantity and index width; big-endian words and (start,end) row pairing are inverted exactly; padded data units are whole 2880-byte blocks; NUNIQ code round trip. "
+            "level included), every quantity and index width; END TO END (ascii_roundtrip_moc): for every valid MOC M of depth d the reader applied to the writer's tokens for the cell-range view of M "
+            "returns exactly (d, M); big-endian words and (start,end) row pairing are inverted exactly; padded data units are whole 2880-byte blocks; NUNIQ code round trip. "
             "Tied to the code by three correspondences on real bytes (writer text = model text, reader = model reader, FITS data unit = model bytes). Partial: fold widths, offset notation, streaming "
             "ASCII, JSON, FITS header cards, NUNIQ files and lazy writers are checked by direct round trips on real bytes (test level), not modelled.",
     "design_ref": "DESIGN.md §4 C07, §10",
@@ -108,8 +109,10 @@ CLAIMED["C11"] = {
 CLAIMED["C12"] = {
     "text": "Theorems on the ASCII reader model: whatever it accepts has a declared depth within the quantity's maximum, only elements inside the domain of their own depth, pairwise non-overlapping, "
             "and yields the canonical MOC covering exactly those elements; every number carried by a token (incl. the exclusive end) fits the index type; the reader is total. The real reader is tied to "
-            "the model on thousands of single-field mutations (same verdict and value). Four genuine defects repaired (ASCII: '>' instead of '>=', no depth bound, reversed ranges, end+1 overflow; "
-            "JSON: no index bound). Partial: totality of the real FITS / stream / JSON readers is mutation-fuzzed (panics reported), not proved; MOM / skymap readers and store loaders are not driven.",
+            "the model on thousands of single-field mutations (same verdict and value). Genuine defects repaired: ASCII ('>' instead of '>=', no depth bound, reversed ranges, end+1 overflow), JSON (no index "
+            "bound), FITS (error-branch slice panic, NUNIQ values 1..3 and beyond the deepest depth, multi-order map header/row values, two allocations sized by header counts). Partial: totality of the "
+            "real FITS / multi-order map / sky map / stream / JSON readers and store loaders is mutation-fuzzed (card-level and data-word mutations, giant counts in memory-limited child processes; every "
+            "panic or abort reported), not proved.",
     "design_ref": "DESIGN.md §4 C12, §10",
     "note": TB + "; totality of Rust decoders is tested, not proved",
     "technique": "Lean 4 proof (validity of accepted documents, overflow freedom) + differential correspondence on mutated documents + mutation fuzzing of the unmodelled decoders",
